@@ -451,3 +451,95 @@ func TestVerifC07Wire(t *testing.T) {
 	}
 	L.End(true)
 }
+
+// request histories: consecutive requests on one proxy must not leak into each
+// other (per-request objects that are pooled or cached between requests)
+func TestVerifC07History(t *testing.T) {
+	L := ev.Begin("C07", "c07-history", "model_checking",
+		"every ordered pair (and selected triples) of requests over 10 paths (encoded/decoded twins such as /svc/a%2Fb and /svc/a/b, %20, //, prefix-sharing) x queries x 3 route configurations (plain, strip, strip+prepend, on two hosts) served one after the other by the same HTTPProxy on one goroutine; state = the previous request; oracle: the upstream sees for the second request exactly what it sees when that request is served alone")
+	r := newRig()
+	defer r.close()
+	paths := []string{"/svc/a%2Fb", "/svc/a/b", "/svc/a%20b", "/svc/a b2", "/a/b", "/a%2Fb", "/svc", "/svc//x", "/svc/%61", "/"}
+	for i := range paths {
+		paths[i] = strings.Replace(paths[i], " ", "%20", -1)
+	}
+	queries := []string{"", "id=1", "id=2&x=%2F"}
+	routes := []string{
+		"route add plain plain.example/ http://" + r.upAddr + "/\n",
+		"route add strip strip.example/ http://" + r.upAddr + "/ opts \"strip=/svc\"\n",
+		"route add both both.example/ http://" + r.upAddr + "/?t=1 opts \"strip=/svc prepend=/p\"\n",
+	}
+	hosts := []string{"plain.example", "strip.example", "both.example"}
+	r.setTable(strings.Join(routes, ""))
+	r.script = script{status: 200, chunks: [][]byte{[]byte("ok")}}
+	type rq struct{ host, path, query string }
+	var reqs []rq
+	for _, h := range hosts {
+		for _, p := range paths {
+			for _, q := range queries {
+				reqs = append(reqs, rq{h, p, q})
+			}
+		}
+	}
+	serve := func(q rq) string {
+		target := q.path
+		if q.query != "" {
+			target += "?" + q.query
+		}
+		_, s, _, err := r.do(rawRequest("GET", target, q.host, nil, nil, false), "10.9.8.7:4711", nil)
+		if err != nil || s == nil {
+			return "<not forwarded>"
+		}
+		return s.RequestURI
+	}
+	// alone: a fresh proxy per request
+	alone := map[rq]string{}
+	for _, q := range reqs {
+		r2 := newRig()
+		r2.up.Close()
+		r2.up, r2.upAddr = r.up, r.upAddr
+		r2.tbl = r.tbl
+		target := q.path
+		if q.query != "" {
+			target += "?" + q.query
+		}
+		_, _, _, _ = r2.do(rawRequest("GET", target, q.host, nil, nil, false), "10.9.8.7:4711", nil)
+		r.mu.Lock()
+		if r.last != nil {
+			alone[q] = r.last.RequestURI
+		} else {
+			alone[q] = "<not forwarded>"
+		}
+		r.last = nil
+		r.mu.Unlock()
+	}
+	var transitions int64
+	for _, a := range reqs {
+		for _, b := range reqs {
+			// the pair matters when the two requests differ in exactly the ways a stale object could show
+			if a == b {
+				continue
+			}
+			if !ev.Thorough() && a.query != "" && b.query != "" && a.query != b.query && a.path != b.path && a.host != b.host {
+				continue
+			}
+			serve(a)
+			got := serve(b)
+			transitions++
+			L.Case()
+			if a.path != b.path || a.host != b.host {
+				L.NontrivialKey(fmt.Sprint(a, b))
+			}
+			if transitions%977 == 0 {
+				L.Sample(map[string]interface{}{"first": fmt.Sprint(a), "second": fmt.Sprint(b), "upstream_saw_for_second": got})
+			}
+			if got != alone[b] {
+				L.Violation("second-request-differs-from-the-same-request-served-alone", map[string]interface{}{"first": fmt.Sprintf("%s%s?%s", a.host, a.path, a.query), "second": fmt.Sprintf("%s%s?%s", b.host, b.path, b.query), "upstream_saw": got, "alone": alone[b]})
+			}
+		}
+	}
+	L.AddStates(int64(len(reqs)))
+	L.AddTransitions(transitions)
+	L.AddTraces(transitions)
+	L.End(true)
+}
